@@ -11,6 +11,7 @@ import (
 	"sort"
 	"strings"
 	"sync"
+	"sync/atomic"
 	"time"
 )
 
@@ -166,6 +167,11 @@ type Disagreement struct {
 	Model Result
 }
 
+var (
+	slowModel     sync.Mutex
+	modelNoAnswer int64
+)
+
 type caseOutcome struct {
 	implStatus []string
 	c          Case
@@ -220,6 +226,18 @@ func runCase(p *Pair, env *Env, c Case) caseOutcome {
 		}
 		ri := p.Impl(op, env.timeout)
 		rm := p.Model(op, env.timeout)
+		if rm.Status == "timeout" {
+			// The model is a fixed artefact: how long it takes on an input does not depend on the code under check
+			// (a slow answer on a loaded machine is not a difference in behaviour). It is asked again, alone, with a long limit;
+			// when it still has no answer the operation is counted as not compared (evidence: model_no_answer).
+			slowModel.Lock()
+			rm = p.Model(op, 30*env.timeout)
+			slowModel.Unlock()
+			if rm.Status == "timeout" {
+				atomic.AddInt64(&modelNoAnswer, 1)
+				continue
+			}
+		}
 		if ri.Status == "harness-error" || rm.Status == "harness-error" || ri.Status == "bad-op" || rm.Status == "bad-op" || rm.Status == "bad-hex" {
 			out.harness = append(out.harness, fmt.Sprintf("%s: impl=%s model=%s", op.Name, ri.String(), rm.String()))
 			continue
@@ -586,6 +604,7 @@ func runProperty(pr *Property, env *Env, tier string, seed int64, lean leanResul
 		"implementation_outcomes":                opStatus,
 		"known_finding_lines":                    findingLines,
 		"harness_errors":                         len(harnessErrs),
+		"model_no_answer":                        atomic.LoadInt64(&modelNoAnswer),
 		"source_pattern_literals":                patternWatchNote,
 	}
 	assumptions := append([]string{
